@@ -14,7 +14,7 @@ MANIFEST = {
             'x every output choice (each formula cell alone, all together) is compiled; each compiled function is called with the full product of a 9-value pool per '
             'argument (numbers, text, numeric text, logical, error, arrays for ranges) in forward and reverse order, and every returned value is compared with '
             'calculate() on a fresh model and with the reference evaluator. Single formulas: every tree with <= 2 operators over 1-3 reference leaves is compiled and '
-            'called with the pool product in the order of its inputs mapping and compared with the same formula evaluated with the arguments as cell values.',
+            'called with the pool product in the order of its inputs mapping and compared with the same formula evaluated with the arguments as cell values. Every function is compiled twice from the same model object and the second one is judged.',
     'note': 'Trusted: ref/wbeval.py, ref/scalar.py; the fresh-model calculation is an independent second reference. Blank arguments are supplied as cell inputs only.',
 }
 RULE = 'case = (workbook, inputs, outputs); inside a case every argument tuple is called twice; non-trivial = compiled and called; distinct = case key'
